@@ -37,7 +37,6 @@ class NB:
         return run_body(self)
 
 
-@labtech.task(max_parallel=2)
 class NC:
     name: str
     one: Any = None
@@ -47,6 +46,10 @@ class NC:
 
     def run(self):
         return run_body(self)
+
+
+# declared through the call form labtech.task(cls, options) rather than the decorator syntax
+NC = labtech.task(NC, max_parallel=2)
 
 
 @labtech.task(max_parallel=3)
@@ -184,7 +187,6 @@ class NAX:
 from .storages import ArmedJsonCache, ArmedPickleCache  # noqa: E402
 
 
-@labtech.task(cache=None, max_parallel=2)
 class NM:
     """Uncached and limited: the two decorator options combined."""
     name: str
@@ -195,6 +197,10 @@ class NM:
 
     def run(self):
         return run_body(self)
+
+
+# declared through the call form labtech.task(cls, options) rather than the decorator syntax
+NM = labtech.task(NM, cache=None, max_parallel=2)
 
 
 @labtech.task(cache=JsonCache(), max_parallel=1)
